@@ -271,15 +271,15 @@ def h_tzname_text(form):
         ctx.assume(S.within(a, 0, len(ABBRS) - 1))
         ctx.assume(S.within(t, 0, len(TEXTS) - 1))
         a, t, fuzzy = ctx.concrete(a), ctx.concrete(t), ctx.concrete(fuzzy)
-        if ctx.symbolic:
-            return None
         name = ABBRS[a]
         text = TEXTS[t] % name
         paren = "(%s)" in TEXTS[t]
+        if paren and (name in ("UTC", "GMT") or not (3 <= len(name) <= 5)):
+            ctx.assume(False)        # '(XXX)' after a numeric offset is documented for 3..5 letter names; UTC aliases there are outside
+        if ctx.symbolic:
+            return None
         is_name = name.isalpha() and name.isupper() and len(name) <= 5 and all(ord(ch) < 128 for ch in name)
         utc = name in ("UTC", "GMT")
-        if paren and (utc or not (3 <= len(name) <= 5)):
-            ctx.assume(False)        # '(XXX)' after a numeric offset is documented for 3..5 letter names; UTC aliases there are outside
         secs = 3600 * (len(name) + 1)
         zone = tz.tzoffset(name, secs)
         if form == "none":
@@ -292,6 +292,12 @@ def h_tzname_text(form):
             tzinfos = {name: "%s-%d" % ("XXX", len(name) + 1)}       # POSIX: XXX-4 is four hours east
         elif form == "callable":
             tzinfos = lambda nm, off: zone if nm == name else None
+        elif form == "int0":          # an integer offset of zero is an offset like any other
+            tzinfos = {name: 0}
+            secs = 0
+        elif form == "callable0":
+            tzinfos = lambda nm, off: 0 if nm == name else None
+            secs = 0
         else:
             tzinfos = {name: zone}
         key = "tzname-text:%s:%s:%d%s" % (form, name, t, ":fuzzy" if fuzzy else "")
@@ -305,7 +311,7 @@ def h_tzname_text(form):
                 ctx.fail("parse(%r) raised %s" % (text, type(e).__name__), key=key + ":exc")
             if not is_name:
                 # not a zone name: the text is rejected (or, fuzzy, the token is skipped); never resolved through tzinfos
-                if got is not None and not paren:
+                if got is not None and not paren and secs:
                     ctx.check(got.tzinfo is None or got.utcoffset() != datetime.timedelta(seconds=secs) or name == "E5T",
                               "parse(%r): %r is not an admissible zone abbreviation but was resolved through tzinfos" % (text, name), key=key + ":notname")
                 return None
@@ -333,7 +339,7 @@ def h_tzname_text(form):
 def cells(tier):
     q = tier == "quick"
     cs = []
-    for form in ("none", "tzinfo", "int", "str", "callable", "ignoretz"):
+    for form in ("none", "tzinfo", "int", "str", "callable", "ignoretz", "int0", "callable0"):
         cs.append(Cell(M, "h_tzname_text", dict(form=form), budget_s=120))
     pres = [(), ("month",), ("day",), ("month", "day"), ("year",), ("year", "month"), ("hour", "minute"), ("year", "month", "day", "hour", "minute", "second", "microsecond")]
     for dy in ((2024,) if q else (2024, 2023, 1900, 2000)):
